@@ -150,6 +150,7 @@ func (c *Content) WithFileInfoDefaults(umask fs.FileMode, mtime time.Time) *Cont
 			}
 			if cc.FileInfo.Mode == 0 {
 				cc.FileInfo.Mode = info.Mode() &^ umask
+				cc.FileInfo.Mode = unixMode(cc.FileInfo.Mode)
 			}
 			cc.FileInfo.Size = info.Size()
 		}
@@ -159,6 +160,24 @@ func (c *Content) WithFileInfoDefaults(umask fs.FileMode, mtime time.Time) *Cont
 		cc.FileInfo.MTime = mtime
 	}
 	return cc
+}
+
+// unixMode converts a mode obtained from the file system into the representation
+// that file_info.mode uses and that ends up in the packages: the permission bits
+// plus setuid (04000), setgid (02000) and sticky (01000). Go's own flag bits
+// (fs.ModeDir, fs.ModeSetuid, ...) mean something else, or nothing, there.
+func unixMode(mode fs.FileMode) fs.FileMode {
+	result := mode.Perm()
+	if mode&fs.ModeSetuid != 0 {
+		result |= 0o4000
+	}
+	if mode&fs.ModeSetgid != 0 {
+		result |= 0o2000
+	}
+	if mode&fs.ModeSticky != 0 {
+		result |= 0o1000
+	}
+	return result
 }
 
 // Name to part of the os.FileInfo interface
@@ -502,6 +521,7 @@ func addTree(
 			c.Type = TypeDir
 			c.Destination = NormalizeAbsoluteDirPath(destination)
 			c.FileInfo.Mode = info.Mode() &^ umask
+			c.FileInfo.Mode = unixMode(c.FileInfo.Mode)
 			c.FileInfo.MTime = info.ModTime()
 			if ownedByFilesystem(c.Destination) {
 				c.Type = TypeImplicitDir
